@@ -391,7 +391,7 @@ var mutators = []struct {
 	weight int
 }{
 	{mFlip, 2}, {mTruncate, 2}, {mKeyValue, 8}, {mRewire, 5}, {mDupChunk, 1}, {mDelChunk, 2},
-	{mSplice, 2}, {mTokenSwap, 2}, {mStreamDamage, 6}, {mXRef, 3}, {mObjStmIndirect, 4}, {mFontProgram, 3}, {mImageParams, 3}, {mPipeFilter, 4}, {mInlineImage, 2}, {mShareRef, 2},
+	{mSplice, 2}, {mTokenSwap, 2}, {mStreamDamage, 6}, {mXRef, 3}, {mObjStmIndirect, 4}, {mFontProgram, 3}, {mImageParams, 3}, {mPipeFilter, 4}, {mInlineImage, 2}, {mShareRef, 2}, {mArrayArity, 4},
 }
 
 func mutate(R *rand.Rand, d []byte, other []byte) (res []byte, label string) {
